@@ -266,6 +266,11 @@ func runProve(po proveOpts) (res proveResult) {
 		for _, ps := range byPos {
 			keep[ps[0]] = true
 			keep[ps[len(ps)-1]] = true
+			if *tier == "thorough" {
+				for _, o := range ps {
+					keep[o] = true // thorough: every return path is checked for feasibility
+				}
+			}
 		}
 		var kept []*Oblig
 		for _, o := range v.obligs {
@@ -283,6 +288,12 @@ func runProve(po proveOpts) (res proveResult) {
 		workers = 2
 	}
 	dischargeAll(jobs, timeout, workers, scratch)
+	crossDisagree := 0
+	if *tier == "thorough" {
+		// cross-solver pass: every discharged obligation is re-run on the other solvers;
+		// a solver that answers `sat` where another proved `unsat` is a tool error
+		crossDisagree = crossCheck(jobs, workers, scratch)
+	}
 	if *dump != "" {
 		os.MkdirAll(*dump, 0o755)
 		for _, j := range jobs {
@@ -306,6 +317,7 @@ func runProve(po proveOpts) (res proveResult) {
 	toolErrors := 0
 	vacuityBad := 0
 	var retried []string
+	crossConfirmed := 0
 	replayDir := filepath.Join(verifRoot, "replay", prop)
 	for _, v := range verifiers {
 		fe := map[string]any{"function": v.fnName, "mode": v.mode}
@@ -388,6 +400,9 @@ func runProve(po proveOpts) (res proveResult) {
 			if ok {
 				nDis++
 				fDis++
+				if len(o.CrossConfirmed) > 0 {
+					crossConfirmed++
+				}
 				if o.Retried {
 					retried = append(retried, o.Name)
 					if *verbose {
@@ -461,6 +476,9 @@ func runProve(po proveOpts) (res proveResult) {
 		}
 		return res
 	}
+	if crossDisagree > 0 {
+		toolErrors += crossDisagree
+	}
 	if nObl == 0 || vacuityBad > 0 || toolErrors > 0 {
 		return fail("ERROR: no obligations generated or vacuous contracts")
 	}
@@ -480,6 +498,7 @@ func runProve(po proveOpts) (res proveResult) {
 			"functions_under_contract": funcsEv,
 			"solver_ms":                solverMs,
 			"discharged_only_in_retry": retried,
+			"cross_confirmed_by_second_solver": crossConfirmed,
 			"backends":                 "z3-new 5.1.0 first (1.5 s), then z3-new, cvc5 1.0.3, z3 4.8.12 raced; first definite answer wins",
 			"timeout_ms":               timeout,
 			"explanation":              "every obligation is generated from /repo's current source by symbolic execution of the real function bodies against the contracts in zz_verif_contracts.go; callees are replaced by their contracts",
